@@ -463,3 +463,34 @@ Theorem gej_add_ge32_correct : forall inf x0 x1 x2 x3 x4 x5 x6 x7 x8 x9 y0 y1 y2
     (add_ge_post32 inf x0 x1 x2 x3 x4 x5 x6 x7 x8 x9 y0 y1 y2 y3 y4 y5 y6 y7 y8 y9 z0 z1 z2 z3 z4 z5 z6 z7 z8 z9 bx0 bx1 bx2 bx3 bx4 bx5 bx6 bx7 bx8 bx9 by0 by1 by2 by3 by4 by5 by6 by7 by8 by9).
 Proof. exact Kernel.GejAddGe32.gej_add_ge32_correct. Qed.
 Print Assumptions gej_add_ge32_correct.
+
+(* ---- the small group functions in the 32-bit-limb configuration ---- *)
+Require Import Kernel.GroupSmall32 Gen.ge_set_gej_zinv32 Gen.ge_set_ge_zinv32 Gen.gej_rescale32.
+
+Theorem ge_set_gej_zinv32_correct : forall inf zi0 zi1 zi2 zi3 zi4 zi5 zi6 zi7 zi8 zi9 x0 x1 x2 x3 x4 x5 x6 x7 x8 x9 y0 y1 y2 y3 y4 y5 y6 y7 y8 y9,
+  lim32 8 zi0 zi1 zi2 zi3 zi4 zi5 zi6 zi7 zi8 zi9 -> lim32 8 x0 x1 x2 x3 x4 x5 x6 x7 x8 x9 -> lim32 8 y0 y1 y2 y3 y4 y5 y6 y7 y8 y9 ->
+  ge_set_gej_zinv32_k inf zi0 zi1 zi2 zi3 zi4 zi5 zi6 zi7 zi8 zi9 x0 x1 x2 x3 x4 x5 x6 x7 x8 x9 y0 y1 y2 y3 y4 y5 y6 y7 y8 y9 (fun rinf rx0 rx1 rx2 rx3 rx4 rx5 rx6 rx7 rx8 rx9 ry0 ry1 ry2 ry3 ry4 ry5 ry6 ry7 ry8 ry9 =>
+    let X := val10 x0 x1 x2 x3 x4 x5 x6 x7 x8 x9 in let Y := val10 y0 y1 y2 y3 y4 y5 y6 y7 y8 y9 in let ZI := val10 zi0 zi1 zi2 zi3 zi4 zi5 zi6 zi7 zi8 zi9 in
+    rinf = inf /\ lim32 1 rx0 rx1 rx2 rx3 rx4 rx5 rx6 rx7 rx8 rx9 /\ lim32 1 ry0 ry1 ry2 ry3 ry4 ry5 ry6 ry7 ry8 ry9 /\
+    cong (val10 rx0 rx1 rx2 rx3 rx4 rx5 rx6 rx7 rx8 rx9) (X * (ZI * ZI)) /\ cong (val10 ry0 ry1 ry2 ry3 ry4 ry5 ry6 ry7 ry8 ry9) (Y * (ZI * ZI * ZI))).
+Proof. exact Kernel.GroupSmall32.ge_set_gej_zinv32_correct. Qed.
+Print Assumptions ge_set_gej_zinv32_correct.
+
+Theorem ge_set_ge_zinv32_correct : forall inf zi0 zi1 zi2 zi3 zi4 zi5 zi6 zi7 zi8 zi9 x0 x1 x2 x3 x4 x5 x6 x7 x8 x9 y0 y1 y2 y3 y4 y5 y6 y7 y8 y9,
+  lim32 8 zi0 zi1 zi2 zi3 zi4 zi5 zi6 zi7 zi8 zi9 -> lim32 8 x0 x1 x2 x3 x4 x5 x6 x7 x8 x9 -> lim32 8 y0 y1 y2 y3 y4 y5 y6 y7 y8 y9 ->
+  ge_set_ge_zinv32_k inf zi0 zi1 zi2 zi3 zi4 zi5 zi6 zi7 zi8 zi9 x0 x1 x2 x3 x4 x5 x6 x7 x8 x9 y0 y1 y2 y3 y4 y5 y6 y7 y8 y9 (fun rinf rx0 rx1 rx2 rx3 rx4 rx5 rx6 rx7 rx8 rx9 ry0 ry1 ry2 ry3 ry4 ry5 ry6 ry7 ry8 ry9 =>
+    let X := val10 x0 x1 x2 x3 x4 x5 x6 x7 x8 x9 in let Y := val10 y0 y1 y2 y3 y4 y5 y6 y7 y8 y9 in let ZI := val10 zi0 zi1 zi2 zi3 zi4 zi5 zi6 zi7 zi8 zi9 in
+    rinf = inf /\ lim32 1 rx0 rx1 rx2 rx3 rx4 rx5 rx6 rx7 rx8 rx9 /\ lim32 1 ry0 ry1 ry2 ry3 ry4 ry5 ry6 ry7 ry8 ry9 /\
+    cong (val10 rx0 rx1 rx2 rx3 rx4 rx5 rx6 rx7 rx8 rx9) (X * (ZI * ZI)) /\ cong (val10 ry0 ry1 ry2 ry3 ry4 ry5 ry6 ry7 ry8 ry9) (Y * (ZI * ZI * ZI))).
+Proof. exact Kernel.GroupSmall32.ge_set_ge_zinv32_correct. Qed.
+Print Assumptions ge_set_ge_zinv32_correct.
+
+Theorem gej_rescale32_correct : forall s0 s1 s2 s3 s4 s5 s6 s7 s8 s9 x0 x1 x2 x3 x4 x5 x6 x7 x8 x9 y0 y1 y2 y3 y4 y5 y6 y7 y8 y9 z0 z1 z2 z3 z4 z5 z6 z7 z8 z9,
+  lim32 8 s0 s1 s2 s3 s4 s5 s6 s7 s8 s9 -> lim32 8 x0 x1 x2 x3 x4 x5 x6 x7 x8 x9 -> lim32 8 y0 y1 y2 y3 y4 y5 y6 y7 y8 y9 -> lim32 8 z0 z1 z2 z3 z4 z5 z6 z7 z8 z9 ->
+  gej_rescale32_k s0 s1 s2 s3 s4 s5 s6 s7 s8 s9 x0 x1 x2 x3 x4 x5 x6 x7 x8 x9 y0 y1 y2 y3 y4 y5 y6 y7 y8 y9 z0 z1 z2 z3 z4 z5 z6 z7 z8 z9 (fun rx0 rx1 rx2 rx3 rx4 rx5 rx6 rx7 rx8 rx9 ry0 ry1 ry2 ry3 ry4 ry5 ry6 ry7 ry8 ry9 rz0 rz1 rz2 rz3 rz4 rz5 rz6 rz7 rz8 rz9 =>
+    let X := val10 x0 x1 x2 x3 x4 x5 x6 x7 x8 x9 in let Y := val10 y0 y1 y2 y3 y4 y5 y6 y7 y8 y9 in let Z := val10 z0 z1 z2 z3 z4 z5 z6 z7 z8 z9 in let S := val10 s0 s1 s2 s3 s4 s5 s6 s7 s8 s9 in
+    lim32 1 rx0 rx1 rx2 rx3 rx4 rx5 rx6 rx7 rx8 rx9 /\ lim32 1 ry0 ry1 ry2 ry3 ry4 ry5 ry6 ry7 ry8 ry9 /\ lim32 1 rz0 rz1 rz2 rz3 rz4 rz5 rz6 rz7 rz8 rz9 /\
+    cong (val10 rx0 rx1 rx2 rx3 rx4 rx5 rx6 rx7 rx8 rx9) (X * (S * S)) /\ cong (val10 ry0 ry1 ry2 ry3 ry4 ry5 ry6 ry7 ry8 ry9) (Y * (S * S) * S) /\ cong (val10 rz0 rz1 rz2 rz3 rz4 rz5 rz6 rz7 rz8 rz9) (Z * S)).
+Proof. exact Kernel.GroupSmall32.gej_rescale32_correct. Qed.
+Print Assumptions gej_rescale32_correct.
+
